@@ -152,4 +152,11 @@ impl<K: Copy + Ord, V> PriorityQueue<K, V> {
             .map(|item| (item.key, item.epoch, &item.value))
             .collect()
     }
+
+    /// Verification hook: moves the epoch counter forward.
+    pub(crate) fn verif_set_next_epoch(&mut self, epoch: u64) {
+        if epoch > self.next_epoch {
+            self.next_epoch = epoch;
+        }
+    }
 }
